@@ -477,6 +477,13 @@ CONFIGS = [
     ('Grect/cov', 'Grect', dict(source_coverage=(160, 40, 800, 280)), [('1.1.1', 'EPSG:3857', False)]),
     ('Gcust', 'Gcust', dict(meta_buffer=1), [('1.1.1', 'EPSG:3857', False), ('1.3.0', 'EPSG:3857', False)]),
     ('Gunalul', 'Gunalul', dict(), [('1.3.0', 'EPSG:3857', False)]),
+    # the upstream is a tile service (URL template) on the grid of the cache
+    ('G2/tiles', 'G2', dict(tile_source=True, meta_size=(1, 1)), [('1.1.1', 'EPSG:3857', False), ('1.3.0', 'EPSG:3857', False)]),
+    ('Gpartul/tiles', 'Gpartul', dict(tile_source=True), [('1.1.1', 'EPSG:3857', False)]),
+    ('Gneg/tiles/4326', 'Gneg', dict(tile_source=True, srs='EPSG:4326', scale=0.001), [('1.1.1', 'EPSG:4326', False), ('1.3.0', 'EPSG:4326', True)]),
+    # a cache filled from another cache with tiles of another size and the other origin
+    ('G2/cache-of-cache', 'G2', dict(under=dict(tw=3, th=5, ul=True)), [('1.1.1', 'EPSG:3857', False), ('1.3.0', 'EPSG:3857', False)]),
+    ('Gpartul/cache-of-cache', 'Gpartul', dict(under=dict(tw=5, th=4, ul=False), meta_buffer=1), [('1.1.1', 'EPSG:3857', False)]),
 ]
 
 
@@ -485,7 +492,7 @@ def run(ctx):
     tlc.sany(SPEC)
     nmap = 600 if thorough else 220
     ninfo = 120 if thorough else 25
-    configs = CONFIGS if thorough else [c for c in CONFIGS if c[0] in ('G2/3857', 'Gneg/buffer', 'Gpartul', 'G15', 'G2/4326', 'Grect/cov', 'Grect/4326/up130', 'G2/31467', 'G2/4326/fine')]
+    configs = CONFIGS if thorough else [c for c in CONFIGS if c[0] in ('G2/3857', 'Gneg/buffer', 'Gpartul', 'G15', 'G2/4326', 'Grect/cov', 'Grect/4326/up130', 'G2/31467', 'G2/4326/fine', 'G2/tiles', 'Gpartul/tiles', 'G2/cache-of-cache', 'Gpartul/cache-of-cache')]
     for name, gname, kw, variants in configs:
         g = L.spec_grid(gname)
         srs = kw.get('srs', 'EPSG:3857')
@@ -498,8 +505,9 @@ def run(ctx):
         try:
             reqs = gen_requests(g, ctx.rng, nmap)
             maps = observe_maps(app, g, reqs, variants, ctx.rng, problems)
-            infos = observe_infos(app, g, ctx.rng, ninfo, variants, problems)
-            if srs == 'EPSG:3857':
+            # (a tile service has no feature info: the layer is not queryable)
+            infos = [] if kw.get('tile_source') else observe_infos(app, g, ctx.rng, ninfo, variants, problems)
+            if srs == 'EPSG:3857' and not kw.get('tile_source'):
                 infos += observe_wmts_infos(app, g, ctx.rng, ninfo, problems)
         finally:
             app.close()
@@ -538,8 +546,9 @@ def run(ctx):
         'grid or an alias / axis-swapped form of it (EPSG:3857, EPSG:900913, EPSG:4326 in both axis orders); for requests '
         'that need a mesh reprojection (EPSG:4326 <-> EPSG:3857) the position clause alone, with the expected place of every '
         'pixel computed by the harness from the closed formulas of the spherical Mercator projection',
-        'nearest-neighbour resampling configured so that decoded cells stay exact; cascaded (uncached) WMS layers and tile '
-        'URL-template sources are not covered, cached WMS sources are',
+        'nearest-neighbour resampling configured so that decoded cells stay exact; upstreams: WMS sources (1.1.1 / 1.3.0, with '
+        'and without coverage), tile services addressed by a URL template on the grid of the cache, another cache with tiles of '
+        'another size and origin (same resolutions); cascaded (uncached) layers in the reprojected worlds',
     ]
     return ctx.finish('model_checking',
                       'TLC validates the decoded provenance of every output pixel of every recorded map request and every forwarded '
